@@ -50,6 +50,11 @@ func projectPE(b []byte) (M, string) {
 	if slack < 0 {
 		return nil, "SizeOfHeaders inside the section table"
 	}
+	for _, s := range secs {
+		if s.size == 0 && s.ptr != 0 {
+			return nil, "section without raw data has a non-zero pointer (not in the projection model)"
+		}
+	}
 	// file order among non-empty sections
 	ne := []sec{}
 	for _, s := range secs {
@@ -116,7 +121,7 @@ func projectPE(b []byte) (M, string) {
 	for k := range secs {
 		sl = append(sl, M{"size": secs[k].size, "fpos": fpos[k]})
 	}
-	return M{"bits": bits, "lfanew": lfanew, "secs": sl, "slack": slack, "gap": gap, "gappos": gappos, "trail": trail, "cert": certsz}, ""
+	return M{"bits": bits, "lfanew": lfanew, "secs": sl, "slack": slack, "gap": gap, "gappos": gappos, "trail": trail, "cert": certsz, "zptr": "zero"}, ""
 }
 
 func runPeProject(sc M) {
